@@ -16,6 +16,11 @@ import (
 func init() { register("C01", checkC01) }
 
 func checkC01(p *Prog, r *Report) {
+	r.rule("C01.impl.* (imported from C17): SoftResource.Set and Wrapper.setField store exactly the value they are given and Get returns it as stored")
+	nImpl := r.importRules(func(r2 *Report) { checkSoftGetSet(p, r2); checkWrapperGetSet(p, r2) }, "C01.impl", "C17.set-stores-given", "C17.get-returns-stored")
+	r.floor("imported Get/Set obligations", nImpl, 4)
+	r.rule("C01.inspectors-pure: BuildType, Wrap, Check, IDAndType and what they call in the package use no package-level variable that is modified at run time (no cache keyed by type or name): what they report for a struct depends on that struct alone")
+	checkInspectorsPure(p, r, "C01")
 	r.rule("C01.build-wrap (imported from C20.sibling-agreement): the Type BuildType builds for a struct (the schema's definition, under whose field names payloads are decoded) and the type its Wrapper reports and marshals under name every field alike")
 	nBW := r.importRules(func(r2 *Report) { checkBuildWrapAgreement(p, r2) }, "C01.build-wrap", "C20.sibling-agreement")
 	r.floor("imported build/wrap obligations", nBW, 1)
